@@ -1,6 +1,9 @@
 ----------------------------- MODULE MC_Lattice -----------------------------
 EXTENDS LatticeWalk
-NoDev == [noWrap |-> FALSE, noOverlapTest |-> FALSE]
+NoDev == [noWrap |-> FALSE, noOverlapTest |-> FALSE, neighboursExempt |-> FALSE]
+DevNeighbours == [NoDev EXCEPT !.neighboursExempt = TRUE]
+NoRings == {}
+Ring1 == {1}
 DevNoWrap == [NoDev EXCEPT !.noWrap = TRUE]
 DevNoOverlap == [NoDev EXCEPT !.noOverlapTest = TRUE]
 Chains2x3 == <<3, 3>>
